@@ -111,8 +111,10 @@ def run(ctx):
     for q, must in (('_offset', 'syntax_ordered_children'), ('_touchall', 'syntax_ordered_children|walk|iter_child_nodes'), ('_make_fst_tree', '_fields'),
                     ('_unmake_fst_tree', '_fields')):
         for fi in ctx.repo.funcs('fst_core', q):
-            txt = norm(ast.unparse(fi.node), 200000)
-            ctx.check('R1.4', any(m in txt for m in must.split('|')), 'fst_core', fi.qualname, f'{q} enumerates children via {must}',
+            want = set(must.split('|'))
+            uses = any((isinstance(x, ast.Call) and call_name(x) in want) or (isinstance(x, ast.Attribute) and x.attr in want) or
+                       (isinstance(x, ast.Name) and x.id in want) for x in ast.walk(fi.node))
+            ctx.check('R1.4', uses, 'fst_core', fi.qualname, f'{q} enumerates children via {must}',
                       f'{q} must reach all children through the grammar-driven enumeration', fi.lineno)
 
 
